@@ -622,4 +622,334 @@ theorem mergeMax_spec (nC : Nat) (files : List Buffer) (hne : files ≠ [])
       · exact hmax _ (by simp) row' hrow'
       · exact hmax f' (by simp [h]) row' hrow'
 
+/-! ### `_process_chunk` and friends, projected to one output row -/
+
+theorem bufAdd_spec : ∀ (buf : Buffer) (u : Nat) (r : Row), u < buf.length →
+    ∃ buf', bufAdd buf u r = some buf' ∧ buf'.length = buf.length ∧
+      ∀ c : Nat, buf'[c]? = if c = u then buf[c]?.map (·.add r) else buf[c]? := by
+  intro buf
+  induction buf with
+  | nil => intro u r h; simp at h
+  | cons b bs ih =>
+    intro u r h
+    cases u with
+    | zero =>
+      refine ⟨b.add r :: bs, rfl, rfl, fun c => ?_⟩
+      cases c <;> simp
+    | succ u =>
+      obtain ⟨bs', h1, h2, h3⟩ := ih u r (by simpa using h)
+      refine ⟨b :: bs', by simp [bufAdd, h1], by simp [h2], fun c => ?_⟩
+      cases c with
+      | zero => simp
+      | succ c => simp [h3 c]
+
+theorem mem_insertUniq (x a : Nat) (ys : List Nat) : a ∈ insertUniq x ys ↔ a = x ∨ a ∈ ys := by
+  induction ys with
+  | nil => simp [insertUniq]
+  | cons y ys ih =>
+    simp only [insertUniq]
+    split
+    · simp
+    · split
+      · rename_i h; subst h; simp
+      · simp only [List.mem_cons, ih]; tauto
+
+theorem insertUniq_pairwise (x : Nat) (ys : List Nat) (h : ys.Pairwise (· < ·)) :
+    (insertUniq x ys).Pairwise (· < ·) := by
+  induction ys with
+  | nil => simp [insertUniq]
+  | cons y ys ih =>
+    simp only [insertUniq]
+    rw [List.pairwise_cons] at h
+    split
+    · rename_i hxy
+      rw [List.pairwise_cons]
+      refine ⟨fun a ha => ?_, List.pairwise_cons.mpr h⟩
+      simp only [List.mem_cons] at ha
+      rcases ha with rfl | ha
+      · exact hxy
+      · exact Nat.lt_trans hxy (h.1 a ha)
+    · split
+      · exact List.pairwise_cons.mpr h
+      · rw [List.pairwise_cons]
+        refine ⟨fun a ha => ?_, ih h.2⟩
+        rw [mem_insertUniq] at ha
+        rcases ha with rfl | ha
+        · omega
+        · exact h.1 a ha
+
+theorem mem_uniqueSorted (a : Nat) (xs : List Nat) : a ∈ uniqueSorted xs ↔ a ∈ xs := by
+  induction xs with
+  | nil => simp [uniqueSorted]
+  | cons x xs ih =>
+    simp only [uniqueSorted, List.foldr_cons] at ih ⊢
+    rw [mem_insertUniq, ih]; simp
+
+theorem uniqueSorted_pairwise (xs : List Nat) : (uniqueSorted xs).Pairwise (· < ·) := by
+  induction xs with
+  | nil => simp [uniqueSorted]
+  | cons x xs ih =>
+    simp only [uniqueSorted, List.foldr_cons] at ih ⊢
+    exact insertUniq_pairwise x _ ih
+
+theorem uniqueSorted_nodup (xs : List Nat) : (uniqueSorted xs).Nodup :=
+  (uniqueSorted_pairwise xs).imp (fun h => Nat.ne_of_lt h)
+
+theorem mem_of_lookup_eq_some {k v : Nat} : ∀ {l : List (Nat × Nat)}, l.lookup k = some v → (k, v) ∈ l := by
+  intro l
+  induction l with
+  | nil => intro h; simp at h
+  | cons p l ih =>
+    intro h
+    obtain ⟨a, b⟩ := p
+    simp only [List.lookup_cons] at h
+    by_cases hka : k = a
+    · subst hka; simp at h; subst h; simp
+    · have : (k == a) = false := by simpa using hka
+      rw [this] at h
+      exact List.mem_cons_of_mem _ (ih h)
+
+/-- contribution of a block of cells to output row `c`: the ordered sum of
+`cellStat` over the cells of the block named for row `c` -/
+def S (nameToRow : List (Nat × Nat)) (c : Nat) (cells : List CellRec) : Row :=
+  rowSum ((cellsOfRow nameToRow c cells).map (fun cell => cellStat cell.vals))
+
+theorem S_nil (ntr : List (Nat × Nat)) (c : Nat) : S ntr c [] = Row.empty := rfl
+
+theorem S_append (ntr : List (Nat × Nat)) (c : Nat) (A B : List CellRec) :
+    S ntr c (A ++ B) = (S ntr c A).add (S ntr c B) := by
+  simp [S, cellsOfRow, rowSum_append]
+
+theorem summaryStats_cellsOfRow (ntr : List (Nat × Nat)) (c : Nat) (cells : List CellRec) :
+    summaryStats ((cellsOfRow ntr c cells).map (·.vals)) = S ntr c cells := by
+  simp [summaryStats, S, List.map_map, Function.comp_def]
+
+theorem processUnique_spec (ntr : List (Nat × Nat)) (cells : List CellRec) :
+    ∀ (us : List Nat) (buf : Buffer), us.Nodup → (∀ u ∈ us, u < buf.length) →
+      ∃ buf', processUnique ntr cells buf us = .ok buf' ∧ buf'.length = buf.length ∧
+        ∀ c : Nat, buf'[c]? = if c ∈ us then buf[c]?.map (·.add (S ntr c cells)) else buf[c]? := by
+  intro us
+  induction us with
+  | nil => intro buf _ _; exact ⟨buf, rfl, rfl, fun c => by simp⟩
+  | cons u us ih =>
+    intro buf hnd hlt
+    rw [List.nodup_cons] at hnd
+    obtain ⟨buf1, h1, h2, h3⟩ := bufAdd_spec buf u (S ntr u cells) (hlt u (by simp))
+    obtain ⟨buf', h4, h5, h6⟩ := ih buf1 hnd.2 (fun v hv => by rw [h2]; exact hlt v (by simp [hv]))
+    refine ⟨buf', ?_, by rw [h5, h2], fun c => ?_⟩
+    · simp only [processUnique, summaryStats_cellsOfRow, h1, h4]
+    · rw [h6 c, h3 c]
+      by_cases hcu : c = u
+      · subst hcu; simp [hnd.1]
+      · simp [hcu]
+
+theorem cellsOfRow_eq_nil (ntr : List (Nat × Nat)) (c : Nat) (cells : List CellRec)
+    (h : c ∉ cells.filterMap (rowOf ntr)) : cellsOfRow ntr c cells = [] := by
+  simp only [cellsOfRow, List.filter_eq_nil_iff]
+  intro cell hcell hrow
+  apply h
+  simp only [List.mem_filterMap]
+  exact ⟨cell, hcell, by simpa using hrow⟩
+
+theorem processChunk_spec (ntr : List (Nat × Nat)) (buf : Buffer) (cells : List CellRec)
+    (hntr : ∀ p ∈ ntr, p.2 < buf.length) :
+    ∃ buf', processChunk ntr buf cells = .ok buf' ∧ buf'.length = buf.length ∧
+      ∀ c : Nat, buf'[c]? = buf[c]?.map (·.add (S ntr c cells)) := by
+  obtain ⟨buf', h1, h2, h3⟩ := processUnique_spec ntr cells
+    (uniqueSorted (cells.filterMap (rowOf ntr))) buf (uniqueSorted_nodup _) (by
+      intro u hu
+      rw [mem_uniqueSorted, List.mem_filterMap] at hu
+      obtain ⟨cell, _, hrow⟩ := hu
+      exact hntr _ (mem_of_lookup_eq_some hrow))
+  refine ⟨buf', h1, h2, fun c => ?_⟩
+  rw [h3 c]
+  split
+  · rfl
+  · rename_i hc
+    rw [mem_uniqueSorted] at hc
+    have : S ntr c cells = Row.empty := by simp [S, cellsOfRow_eq_nil ntr c cells hc]
+    rw [this]
+    cases buf[c]? <;> simp
+
+theorem processChunks_spec (ntr : List (Nat × Nat)) :
+    ∀ (chunks : List Chunk) (buf : Buffer), (∀ p ∈ ntr, p.2 < buf.length) →
+      ∃ buf', processChunks ntr buf chunks = .ok buf' ∧ buf'.length = buf.length ∧
+        ∀ c : Nat, buf'[c]? = buf[c]?.map (·.add (S ntr c (chunks.flatMap (·.cells)))) := by
+  intro chunks
+  induction chunks with
+  | nil =>
+    intro buf _
+    refine ⟨buf, rfl, rfl, fun c => ?_⟩
+    cases buf[c]? <;> simp [S_nil]
+  | cons ch chunks ih =>
+    intro buf hntr
+    obtain ⟨buf1, h1, h2, h3⟩ := processChunk_spec ntr buf ch.cells hntr
+    obtain ⟨buf', h4, h5, h6⟩ := ih buf1 (by rw [h2]; exact hntr)
+    refine ⟨buf', by simp only [processChunks, h1, h4], by rw [h5, h2], fun c => ?_⟩
+    rw [h6 c, h3 c, List.flatMap_cons, S_append]
+    cases buf[c]? <;> simp [Row.add_assoc]
+
+theorem processSpec_spec (nC g : Nat) (ntr : List (Nat × Nat)) (load : List Chunk)
+    (hntr : ∀ p ∈ ntr, p.2 < nC) :
+    ∃ buf, processSpec nC g ntr load = .ok buf ∧ buf.length = nC ∧
+      ∀ c : Nat, c < nC → buf[c]? = some ((Row.zero g).add (S ntr c (load.flatMap (·.cells)))) := by
+  obtain ⟨buf, h1, h2, h3⟩ := processChunks_spec ntr load (zeroBuffer nC g)
+    (by simpa [zeroBuffer] using hntr)
+  refine ⟨buf, h1, by simpa [zeroBuffer] using h2, fun c hc => ?_⟩
+  rw [h3 c]
+  simp [zeroBuffer, hc]
+
+theorem mapMExcept_ok {α β ε : Type} (f : α → Except ε β) (P : α → β → Prop) :
+    ∀ (as : List α), (∀ a ∈ as, ∃ b, f a = .ok b ∧ P a b) →
+      ∃ bs, mapMExcept f as = .ok bs ∧ List.Forall₂ P as bs := by
+  intro as
+  induction as with
+  | nil => intro _; exact ⟨[], rfl, List.Forall₂.nil⟩
+  | cons a as ih =>
+    intro h
+    obtain ⟨b, hb, hP⟩ := h a (by simp)
+    obtain ⟨bs, hbs, hF⟩ := ih (fun a' ha' => h a' (by simp [ha']))
+    exact ⟨b :: bs, by simp only [mapMExcept, hb, hbs], List.Forall₂.cons hP hF⟩
+
+theorem Row.zero_add_add_zero_add (g : Nat) (x y : Row) :
+    ((Row.zero g).add x).add ((Row.zero g).add y) = (Row.zero g).add (x.add y) := by
+  rw [Row.add_assoc, Row.add_left_comm x, ← Row.add_assoc (Row.zero g) (Row.zero g),
+    Row.zero_add_zero]
+
+theorem bufZipAdd_getElem? (a b : Buffer) (c : Nat) (x y : Row) (ha : a[c]? = some x)
+    (hb : b[c]? = some y) : (bufZipAdd a b)[c]? = some (x.add y) := by
+  simp [bufZipAdd, List.getElem?_zipWith, ha, hb]
+
+theorem foldl_bufZipAdd {α : Type} (nC g : Nat) (X : Nat → α → Row) :
+    ∀ (as : List α) (bs : List Buffer),
+      List.Forall₂ (fun a b => b.length = nC ∧
+        ∀ c : Nat, c < nC → b[c]? = some ((Row.zero g).add (X c a))) as bs →
+      ∀ (acc : Buffer) (A : Nat → Row), acc.length = nC →
+        (∀ c : Nat, c < nC → acc[c]? = some ((Row.zero g).add (A c))) →
+        (bs.foldl bufZipAdd acc).length = nC ∧
+        ∀ c : Nat, c < nC → (bs.foldl bufZipAdd acc)[c]?
+          = some ((Row.zero g).add ((A c).add (rowSum (as.map (X c))))) := by
+  intro as bs hF
+  induction hF with
+  | nil =>
+    intro acc A hlen hacc
+    exact ⟨hlen, fun c hc => by simp [hacc c hc]⟩
+  | @cons a b as bs hab _ ih =>
+    intro acc A hlen hacc
+    have hlen' : (bufZipAdd acc b).length = nC := by
+      simp [bufZipAdd, hlen, hab.1]
+    obtain ⟨h1, h2⟩ := ih (bufZipAdd acc b) (fun c => (A c).add (X c a)) hlen' (fun c hc => by
+      rw [bufZipAdd_getElem? acc b c _ _ (hacc c hc) (hab.2 c hc), Row.zero_add_add_zero_add])
+    refine ⟨h1, fun c hc => ?_⟩
+    simp only [List.foldl_cons, List.map_cons, rowSum_cons]
+    rw [h2 c hc, Row.add_assoc]
+
+theorem S_flatten (ntr : List (Nat × Nat)) (c : Nat) (ls : List (List Chunk)) :
+    rowSum (ls.map (fun l => S ntr c (l.flatMap (·.cells))))
+      = S ntr c (ls.flatten.flatMap (·.cells)) := by
+  induction ls with
+  | nil => rfl
+  | cons l ls ih => simp [List.flatMap_append, S_append, ih]
+
+theorem allChunks_cells (rows : Nat) (files : List (Nat × List CellRec)) (hrows : 1 ≤ rows) :
+    (files.flatMap (fun f => fileChunks rows f.1 f.2)).flatMap (·.cells)
+      = files.flatMap (·.2) := by
+  induction files with
+  | nil => rfl
+  | cons f files ih =>
+    simp only [List.flatMap_cons, List.flatMap_append, ih, fileChunks_cells _ _ _ hrows]
+
+theorem cellsOfRow_filter_wanted (ntr : List (Nat × Nat)) (c : Nat)
+    (files : List (Nat × List CellRec)) :
+    cellsOfRow ntr c ((files.filter (fun f => wanted ntr f.2)).flatMap (·.2))
+      = cellsOfRow ntr c (files.flatMap (·.2)) := by
+  induction files with
+  | nil => rfl
+  | cons f files ih =>
+    simp only [cellsOfRow] at ih
+    by_cases hw : wanted ntr f.2 = true
+    · simp only [List.filter_cons, hw, if_true, List.flatMap_cons, cellsOfRow,
+        List.filter_append, ih]
+    · simp only [List.filter_cons, hw, if_false, List.flatMap_cons, cellsOfRow,
+        List.filter_append, ih, Bool.false_eq_true]
+      have : f.2.filter (fun cell => rowOf ntr cell == some c) = [] := by
+        rw [List.filter_eq_nil_iff]
+        intro cell hcell hrow
+        apply hw
+        simp only [wanted, List.any_eq_true]
+        refine ⟨cell, hcell, ?_⟩
+        have : rowOf ntr cell = some c := by simpa using hrow
+        simp [this]
+      rw [this, List.nil_append]
+
+theorem precompute_spec (nC g : Nat) (ntr : List (Nat × Nat))
+    (files : List (Nat × List CellRec)) (rows nProc : Nat)
+    (hrows : 1 ≤ rows) (hproc : 1 ≤ nProc) (hntr : ∀ p ∈ ntr, p.2 < nC)
+    (hw : ∃ f ∈ files, wanted ntr f.2 = true) :
+    ∃ buf, precompute nC g ntr files rows nProc = .ok buf ∧ buf.length = nC ∧
+      ∀ c : Nat, c < nC → buf[c]? = some ((Row.zero g).add (S ntr c (files.flatMap (·.2)))) := by
+  obtain ⟨loads, hloads⟩ := workSplit_ok (files.filter (fun f => wanted ntr f.2)) rows nProc hrows hproc
+  obtain ⟨hflat, _, _⟩ := workSplit_spec _ _ _ _ hloads
+  obtain ⟨bufs, hbufs, hF⟩ := mapMExcept_ok (processSpec nC g ntr)
+    (fun (l : List Chunk) (b : Buffer) => b.length = nC ∧
+      ∀ c : Nat, c < nC → b[c]? = some ((Row.zero g).add (S ntr c (l.flatMap (·.cells))))) loads
+    (fun l _ => by
+      obtain ⟨b, h1, h2, h3⟩ := processSpec_spec nC g ntr l hntr
+      exact ⟨b, h1, h2, h3⟩)
+  have hloads_ne : loads ≠ [] := by
+    intro hnil
+    subst hnil
+    obtain ⟨f, hf, hwf⟩ := hw
+    have hmem : f ∈ files.filter (fun f => wanted ntr f.2) := by
+      simp [List.mem_filter, hf, hwf]
+    have hcells : f.2 ≠ [] := by
+      intro h; simp [wanted, h] at hwf
+    have hch : fileChunks rows f.1 f.2 ≠ [] := by
+      intro h
+      have := fileChunks_cells rows f.1 f.2 hrows
+      rw [h] at this
+      exact hcells this.symm
+    obtain ⟨ch, hch'⟩ := List.exists_mem_of_ne_nil _ hch
+    have : ch ∈ ([] : List (List Chunk)).flatten := by
+      rw [hflat, List.mem_flatMap]; exact ⟨f, hmem, hch'⟩
+    simp at this
+  have hbufs_ne : bufs ≠ [] := by
+    intro h; subst h
+    cases hF
+    exact hloads_ne rfl
+  obtain ⟨h1, h2⟩ := foldl_bufZipAdd nC g (fun c (l : List Chunk) => S ntr c (l.flatMap (·.cells)))
+    loads bufs hF (zeroBuffer nC g) (fun _ => Row.empty) (by simp [zeroBuffer])
+    (fun c hc => by simp [zeroBuffer, hc])
+  refine ⟨bufs.foldl bufZipAdd (zeroBuffer nC g), ?_, h1, fun c hc => ?_⟩
+  · simp only [precompute, hloads, hbufs]
+    cases bufs with
+    | nil => exact absurd rfl hbufs_ne
+    | cons b bs => simp [mergeBuffers]
+  · rw [h2 c hc, Row.empty_add, S_flatten, hflat, allChunks_cells _ _ hrows]
+    simp only [S, cellsOfRow_filter_wanted]
+
+theorem rowSum_cellStat_n (L : List CellRec) :
+    (rowSum (L.map (fun cell => cellStat cell.vals))).n = L.length := by
+  induction L with
+  | nil => rfl
+  | cons c L ih =>
+    simp only [List.map_cons, rowSum_cons, Row.add, List.length_cons, ih]
+    simp only [cellStat]; omega
+
+theorem filter_row_of_filter_lab (ntr : List (Nat × Nat)) (c : Nat) (cells : List CellRec) :
+    (cells.filter (fun cell => (rowOf ntr cell).isSome)).filter
+        (fun cell => rowOf ntr cell == some c)
+      = cells.filter (fun cell => rowOf ntr cell == some c) := by
+  rw [List.filter_filter]
+  apply List.filter_congr
+  intro cell _
+  cases h : rowOf ntr cell <;> simp
+
+theorem S_perm_of_lab (ntr : List (Nat × Nat)) (c : Nat) (A B : List CellRec)
+    (h : (A.filter (fun cell => (rowOf ntr cell).isSome)).Perm
+      (B.filter (fun cell => (rowOf ntr cell).isSome))) : S ntr c A = S ntr c B := by
+  simp only [S, cellsOfRow]
+  rw [← filter_row_of_filter_lab ntr c A, ← filter_row_of_filter_lab ntr c B]
+  exact rowSum_perm ((h.filter _).map _)
+
 end CTM.Stats
